@@ -32,7 +32,9 @@ Inductive case :=
 | CPingIn (texts : list (list N)) (obs : outcome) (replies : N)
 | CPingOut (texts : list (list N)) (obs : outcome) (replies : N)
 | CHiveFind (base requester : list N) (m : find_node_req) (obs : outcome) (npeers : Z)
-| CHivePeers (base : list N) (ping_ok : bool) (ps : list hive_peer) (obs : outcome) (added : Z).
+| CHivePeers (base : list N) (ping_ok : bool) (ps : list hive_peer) (obs : outcome) (added : Z)
+| CCIResp (st : ci_state) (m : ci_resp) (obs : outcome)
+| CCIReq (self : list N) (m : ci_req) (obs : outcome).
 
 (** the node of the harness: overlay address and peer tables (harness/cmd/c37/net.go);
     [flip_at base po salt]: bit [po] flipped, last byte xor salt *)
@@ -73,6 +75,8 @@ Definition model_out (c : case) : outcome :=
   | CPingOut texts _ _ => ping_out texts
   | CHiveFind base rq m _ _ => res_outcome (hive_find base rq m)
   | CHivePeers base ping ps _ _ => res_outcome (hive_peers MaxPO base ping (Some ps))
+  | CCIResp st m _ => chunkinfo_resp true st true (Some m)
+  | CCIReq self m _ => chunkinfo_req self true (Some m)
   end.
 (** second observable (reply / added-peer counts) *)
 Definition model_aux (c : case) : Z :=
@@ -95,6 +99,7 @@ Definition obs_out (c : case) : outcome :=
   | CHsIn _ _ _ _ _ _ obs => obs
   | CTrCheque _ _ _ _ obs | CTrInitIn _ _ _ _ obs | CTrInitOut _ _ _ _ obs => obs
   | CPingIn _ obs _ | CPingOut _ obs _ | CHiveFind _ _ _ obs _ | CHivePeers _ _ _ obs _ => obs
+  | CCIResp _ _ obs | CCIReq _ _ obs => obs
   end.
 Definition check_case (c : case) : bool := outcome_eqb (model_out c) (obs_out c) && (model_aux c =? obs_aux c)%Z.
 Definition explain_case (c : case) := (model_out c, obs_out c, model_aux c, obs_aux c).
